@@ -116,12 +116,16 @@ func runC20(r *simkit.Run) {
 		if d == 0 {
 			return nil
 		}
+		var err error
 		select {
 		case <-ctx.Done():
-			return ctx.Err()
+			err = ctx.Err()
 		case <-time.After(d):
-			return nil
 		}
+		// woken by the clock or by a cancellation, not by the scheduler: hand control back through a
+		// seam before touching anything the scheduler's goroutine also uses
+		s.Park("k0", "mechanism", fmt.Sprintf("busy-over eon %d", eon), nil)
+		return err
 	}
 	msg := p2p.VerifNewMessaging()
 	var opts []keyper.Option
@@ -225,7 +229,22 @@ func runC20(r *simkit.Run) {
 
 	var all []*c20Key
 	var slowTotal time.Duration
-	nextEon := int64(1)
+	// eon numbers in the order in which their key generations complete: mostly ascending, but a
+	// key generation for a lower eon may complete later (another keyper set, a slow DKG)
+	eonOrder := make([]int64, 40)
+	for i := range eonOrder {
+		eonOrder[i] = int64(i + 1)
+	}
+	if c.Chance(500, "eons-complete-out-of-order") {
+		for i := 0; i+1 < len(eonOrder); i++ {
+			if c.Chance(300, "swap-with-later-eon") {
+				j := i + 1 + c.Intn(min(3, len(eonOrder)-i-1), "swap-distance")
+				eonOrder[i], eonOrder[j] = eonOrder[j], eonOrder[i]
+			}
+		}
+		r.Probe("eons-out-of-order")
+	}
+	nextEon := 0
 	nticks := c.Range(3, 8, "ticks")
 	multi := false
 	for tick = 1; tick <= nticks; tick++ {
@@ -235,7 +254,8 @@ func runC20(r *simkit.Run) {
 		var batch []*c20Key
 		for i := 0; i < nk; i++ {
 			kci := int64(1 + c.Intn(2, "key-kci"))
-			k := &c20Key{eon: nextEon, kci: kci, activation: kci * 100, pk: []byte(fmt.Sprintf("eon-public-key-%d", nextEon)), member: kci == 1 || memberOf2}
+			en := eonOrder[nextEon]
+			k := &c20Key{eon: en, kci: kci, activation: kci * 100, pk: []byte(fmt.Sprintf("eon-public-key-%d", en)), member: kci == 1 || memberOf2}
 			nextEon++
 			batch = append(batch, k)
 			if c.Chance(120, "mechanism-refuses") {
